@@ -10,6 +10,7 @@
 typedef json_t vj_t;
 extern const char *g_json_key;
 extern unsigned g_json_version, g_json_mutations, g_json_loads_flags, g_json_dumps_flags;
+extern const struct json_t *g_json_dumped;	/* the value the last json_dumps was asked to serialise */
 extern json_t *g_json_loaded, *g_json_loaded_tracked; extern int g_json_update_kind;
 
 /* ghosts written by the json_load* models */
